@@ -253,8 +253,8 @@ def po_equity(S):
     b = m.get_market_balance()
     val = 0
     for name, p in m.positions.items():
-        val = val + p.amount * half_up_6(Decimal(str(m._market_status.data.at[name, "mark_price"])))
-    S.check("net_value==cash+sum(amount*mark)", S.eq(b.net_value, m.balance + val))
+        val = val + exact(p.amount) * half_up_6(Decimal(str(m._market_status.data.at[name, "mark_price"])))
+    S.check("net_value==cash+sum(amount*mark)", S.eq(b.net_value, exact(m.balance) + val))
     S.check("premium==sum(amount*mark)", S.eq(b.premium, val) and S.eq(b.balance, m.balance))
 
 
